@@ -120,9 +120,15 @@ def generate(run_seed: int, tier: str, *, faults: bool) -> dict:
             return None
         k = core.weighted(rng, kinds)
         if k == "cat_to_num":
-            return {"kind": k, "var": rng.choice(cat_vars)}
+            f_ = {"kind": k, "var": rng.choice(cat_vars)}
+            if rng.random() < 0.15:
+                f_["allnull"] = True
+            return f_
         if k == "num_to_text":
-            return {"kind": k, "var": rng.choice(num_vars), "dtype": rng.choice(["object", "str", "category"])}
+            f_ = {"kind": k, "var": rng.choice(num_vars), "dtype": rng.choice(["object", "str", "category"])}
+            if rng.random() < 0.15:
+                f_["allnull"] = True
+            return f_
         return {"kind": k, "var": rng.choice(cat_vars), "salt": rng.randrange(3), "level": rng.choice(["NEW", "zz", "a "])}
 
     for _ in range(nops):
@@ -543,6 +549,18 @@ def execute(scenario: dict, env: Any, *, prop: str) -> dict:
                     continue
                 fk = fault["kind"]
                 must_raise = (fk == "cat_to_num" and cv["inferred_cat"]) or (fk == "num_to_text" and (cv["inf"] or cv["num_py"]))
+                any_error_ok = False
+                if fault.get("allnull") and fk == "num_to_text":
+                    # an entirely missing column is not a kind change for a numeric python factor (None reads as NaN): judged only
+                    # through factors whose kind is inferred from the data, and then any exception counts as "no matrix"
+                    if not cv["inf"]:
+                        continue
+                    any_error_ok = cv["num_py"]
+                if must_raise and any_error_ok:
+                    if err is None:
+                        raise Violation("c09:kind-flip-not-rejected", {"fault": fault, "var_roles": cv, "returned": brief(canon(res, Structured))})
+                    bump(stats, "probes", "kind_flip_rejected")
+                    continue
                 if must_raise:
                     if err is None:
                         got = canon(res, Structured)
